@@ -89,7 +89,8 @@ func refArrays(s string) (string, bool) {
 	depth := 0
 	for i := 0; i < len(s); i++ {
 		c := s[i]
-		if c == '\\' {
+		// a backslash escapes the next byte, except inside a backtick identifier, where it is a character of the name
+		if c == '\\' && hold != '`' {
 			b.WriteByte(c)
 			if i+1 < len(s) {
 				i++
@@ -149,7 +150,7 @@ func TestC17(t *testing.T) {
 	}
 	report(t, r1)
 	// (2) FixIdiomaticArray against the reference (balanced inputs), all strings up to length n
-	alphabet2 := []string{"[", "]", "'", "\"", "`", "1", ","}
+	alphabet2 := []string{"[", "]", "'", "\"", "`", "1", ",", "\\"}
 	r2 := &result{Property: "C17", Name: "idiomatic-arrays-equals-reference", Bound: fmt.Sprintf("all strings of length <= %d over %q whose brackets outside quotes are balanced", n, alphabet2)}
 	for _, s := range strs(alphabet2, n) {
 		want, ok := refArrays(s)
